@@ -165,6 +165,10 @@ func VerifyFunc(w *World, cs *ContractSet, ct *Contract) *FuncResult {
 				if cl.GenFn == "" {
 					continue
 				}
+				if cl.Assumed {
+					e.trusted("assumed clause of " + shortKey(ct.Key) + ": " + oneLine(cl.Expr))
+					continue
+				}
 				g, ok := e.evalSpec(tr.st, ct.PkgPath, cl.GenFn, all, entry)
 				if !ok {
 					continue
@@ -277,11 +281,19 @@ func (e *Exec) frameFormula(k string, ot, nt Term, mods []*Ptr, alloc Term) (Ter
 	case strings.HasPrefix(k, "G."):
 		var excl []string
 		for _, p := range mods {
+			if p.Kind == pModGhostAll && "G."+p.GhostName == k {
+				return tTrue, false
+			}
 			if p.Kind == pModGhost && "G."+p.GhostName == k {
 				excl = append(excl, fmt.Sprintf("(not (= r %s))", p.Ref.S))
 			}
 		}
-		goal = fmt.Sprintf("(forall ((r Int)) (! (=> (and (< 0 r) (<= r %s) %s) (= (select %s r) (select %s r))) :pattern ((select %s r))))", alloc0, strings.Join(excl, " "), nt.S, ot.S, nt.S)
+		if is := e.ghostIdx[strings.TrimPrefix(k, "G.")]; is != "" && is != SInt {
+			// ghost state keyed by a value (e.g. a path string): every key
+			goal = fmt.Sprintf("(forall ((r %s)) (! (=> (and true %s) (= (select %s r) (select %s r))) :pattern ((select %s r))))", is, strings.Join(excl, " "), nt.S, ot.S, nt.S)
+		} else {
+			goal = fmt.Sprintf("(forall ((r Int)) (! (=> (and (< 0 r) (<= r %s) %s) (= (select %s r) (select %s r))) :pattern ((select %s r))))", alloc0, strings.Join(excl, " "), nt.S, ot.S, nt.S)
+		}
 	case strings.HasPrefix(k, "M."):
 		var excl []string
 		for _, p := range mods {
